@@ -34,6 +34,6 @@ CONFIG = {
                     "host environments are built with os.Setenv, so they contain no duplicate keys and no entries without '=' "
                     "(the theorems cover those as well); the magic cookie key contains no '=' and is not a PLUGIN_* negotiation name"],
     "timeout": {"quick": 600, "thorough": 3000},
-    "level_text": "Lean theorems over an executable model of the environment Client.Start builds (Model/Env.lean: append order, last-entry-wins lookup as os/exec and the child's os.Getenv see it): for ALL client configurations, ALL host environments and ALL pre-set cmd.Env, every negotiation variable the plugin acts on (cookie, min/max port, version list, mux flag, client certificate, socket group, socket dir) has exactly the value the configuration dictates \u2014 in particular it is unset when the configuration does not ask for it, whatever the host's own environment carries (controls_from_config, controls_unset_when_not_requested, controls_independent_of_host); with SkipHostEnv no host variable is passed; the rendered version list parses back to a permutation of the offered keys for any map order (versions_exact); stdin is the host's. The filter loop is modelled as written: no conditional variable of the host survives at any position, adjacency or multiplicity (no_conditional_survives, conditional_entries_from_config), which needs the extracted fact that the loop examines every entry (range over os.Environ() into a fresh slice); an in-place index loop that does not step back after a deletion lets the second of two adjacent conditional variables through (inplace_filter_witness) and is indistinguishable from the correct filter on environments without adjacent ones (deleteSkipping_eq_filter_of_no_adjacent). Witness theorems show the property fails when the inherited-variable filter is missing, partial, or over-broad, or the SkipHostEnv guard is missing. The filter set, the loop shape and the guard are re-extracted from client.go each run; ~2050 cases per run (16 config combinations x 13 host environments, ~650 host environments with adjacent conditional variables x RunnerFunc capture / Cmd with pre-set Env / a real child process reporting os.LookupEnv and its stdin) are compared with the model. Sixth round: Env model facts configuredLast (the caller's and the inherited entries come before the configured ones: caller_wins_witness) and stdinFromStart (stdin_not_from_start_witness); port ranges with only one bound configured, expected values computed from what the caller gave, not read back from the config struct.",
+    "level_text": "Lean theorems over an executable model of the environment Client.Start builds (Model/Env.lean: append order, last-entry-wins lookup as os/exec and the child's os.Getenv see it): for ALL client configurations, ALL host environments and ALL pre-set cmd.Env, every negotiation variable the plugin acts on (cookie, min/max port, version list, mux flag, client certificate, socket group, socket dir) has exactly the value the configuration dictates \u2014 in particular it is unset when the configuration does not ask for it, whatever the host's own environment carries (controls_from_config, controls_unset_when_not_requested, controls_independent_of_host); with SkipHostEnv no host variable is passed; the rendered version list parses back to a permutation of the offered keys for any map order (versions_exact); stdin is the host's. The filter loop is modelled as written: no conditional variable of the host survives at any position, adjacency or multiplicity (no_conditional_survives, conditional_entries_from_config), which needs the extracted fact that the loop examines every entry (range over os.Environ() into a fresh slice); an in-place index loop that does not step back after a deletion lets the second of two adjacent conditional variables through (inplace_filter_witness) and is indistinguishable from the correct filter on environments without adjacent ones (deleteSkipping_eq_filter_of_no_adjacent). Witness theorems show the property fails when the inherited-variable filter is missing, partial, or over-broad, or the SkipHostEnv guard is missing. The filter set, the loop shape and the guard are re-extracted from client.go each run; ~2050 cases per run (16 config combinations x 13 host environments, ~650 host environments with adjacent conditional variables x RunnerFunc capture / Cmd with pre-set Env / a real child process reporting os.LookupEnv and its stdin) are compared with the model. Sixth round: Env model facts configuredLast (the caller's and the inherited entries come before the configured ones: caller_wins_witness) and stdinFromStart (stdin_not_from_start_witness); port ranges with only one bound configured, expected values computed from what the caller gave, not read back from the config struct. Eighth round: the host cannot produce its AutoMTLS certificate (entropy fault during Start): nothing is launched (C17.automtls-cert-fault); the command runner leaves the assembled environment alone (Hygiene.runnerLeavesEnv; child_env_is_assembled).",
     "level_note": "Full strength on the model. The append order (configured entries after the host's) is tied by the correspondence run only, not by an extracted fact. Host environments with duplicate keys or entries without '=' cannot be produced with os.Setenv and are covered by the theorems only. os/exec's environment de-duplication (last entry wins) is validated by the real-child cases.",
 }
